@@ -4,9 +4,9 @@
   Unconditionally homogeneous (`… = scaleProg k …`): determine_flex_base_size, determine_hypothetical_cross_size,
   calculate_children_base_lines, the final layout pass, the absolute pass.
 
-  `determine_container_main_size` in its intrinsic arm is homogeneous in the QUERIES it sends but not in its RESULT: the
-  relation `SimS k Q p' p` ("same shape, inputs and layouts scaled, answers scaled, results related by `Q`") holds with
-  `Q r' r := FloorFree … → r' = scale k r`.
+  `SimS k Q p' p` ("same shape, inputs and layouts scaled, answers scaled, results related by `Q`") generalises
+  `p' = scaleProg k p` (which is `Q b' b := b' = scale k b`, `SimS.to_eq`/`SimS.of_eq'`); it transports to runs against
+  child-answer functions (Lemmas/FlexScaleRun.lean).
 -/
 import TaffyVerif.Lemmas.FlexScaleCross
 import TaffyVerif.Lemmas.FlexItemStages
